@@ -73,7 +73,6 @@
 (*   MIPS64 composed relocations (r_type2 / r_type3 / r_ssym # 0);          *)
 (*   symbols of type STT_FUNC on ARM (the T bit): symbols are SHN_ABS       *)
 (*     STT_NOTYPE, so S = st_value;                                        *)
-(*   the synthetic r_info of a MIPS64 entry (elf64-2.4 has no such field);  *)
 (*   R_*_NONE placed so that fewer than 8 bytes follow r_offset (the        *)
 (*     supplements give it no field; the library reads one and raises);     *)
 (*   fields that leave the section, RELR streams starting with a bitmap or  *)
@@ -94,7 +93,7 @@ CONSTANTS Modes,        \* subset of AllModes
 
 VARIABLES Mode, obj, phase, st
 vars == <<Mode, obj, phase, st>>
-AllModes == {"decode", "apply", "errors", "relr", "relrset", "dyn"}
+AllModes == {"decode", "apply", "errors", "relr", "relrset", "dyn", "twotabs"}
 
 Wsz(cls) == cls \div 8
 
@@ -171,6 +170,19 @@ RelocImage(o) ==
                     Sec(DotSymtab, N(2), Z, Z, sy, N(Len(sy)), N(4), N(Len(o.syms)), N(ws), N(SizeOf(SymF(o.cls), o.cls))),
                     Sec(DotStrtab, N(3), Z, Z, <<0>>, N(1), Z, Z, N(1), Z) >>]
 
+\* ET_REL image with two relocated sections whose relocation tables designate DIFFERENT symbol tables (sh_link):
+\* 1 .debug_info, 2 .rel[a].debug_info (link 5), 3 .debug_line, 4 .rel[a].debug_line (link 6), 5 .symtab, 6 .symtab (second), 7 .strtab
+DotDebugLine == <<46, 100, 101, 98, 117, 103, 95, 108, 105, 110, 101>>
+TwoImage(a, b) ==
+  LET ws == Wsz(a.cls)
+      rsec(o, nm, link, info) == Sec((IF o.rela THEN DotRela ELSE DotRel) \o nm, N(IF o.rela THEN 4 ELSE 9), N(64), Z, TableBytes(o),
+                                     N(Len(TableBytes(o))), N(link), N(info), N(ws), N(EntSize(o.cls, o.rela)))
+      ssec(o) == Sec(DotSymtab, N(2), Z, Z, SymBytes(o), N(Len(SymBytes(o))), N(7), N(Len(o.syms)), N(ws), N(SizeOf(SymF(o.cls), o.cls)))
+  IN [Im0 EXCEPT !.cls = a.cls, !.le = a.le, !.machine = a.machine, !.etype = N(1),
+        !.secs = << Sec(DotDebugInfo, N(1), Z, Z, a.data, N(Len(a.data)), Z, Z, N(1), Z), rsec(a, DotDebugInfo, 5, 1),
+                    Sec(DotDebugLine, N(1), Z, Z, b.data, N(Len(b.data)), Z, Z, N(1), Z), rsec(b, DotDebugLine, 6, 3),
+                    ssec(a), ssec(b), Sec(DotStrtab, N(3), Z, Z, <<0>>, N(1), Z, Z, N(1), Z) >>]
+
 (* ------------------------- (A) tables: reader -------------------------- *)
 RECURSIVE FieldOff(_, _, _)
 FieldOff(F, i, cls) == IF i = 1 THEN 0 ELSE FieldOff(F, i - 1, cls) + Width(F[i - 1][2], cls)
@@ -191,9 +203,11 @@ ReadEntry(bs, n, cls, le, machine, rela) ==
      THEN Entry(p.r_offset, p.r_sym, <<p.r_type[1], 0, 0, 0>>, add, p.r_ssym[1], p.r_type3[1], p.r_type2[1])
      ELSE Entry(p.r_offset, InfoSym(cls, p.r_info), InfoType(cls, p.r_info), add, 0, 0, 0)
 \* what a reader reports for entry e: <<r_offset, r_info, r_info_sym, r_info_type, r_addend, r_ssym, r_type3, r_type2>>
-\* (digit strings, r_addend two's complement at the word size; r_info is <<>> for MIPS64: not a field there)
+\* (digit strings, r_addend two's complement at the word size; for MIPS64, where elf64-2.4 replaces r_info by the sub-fields, r_info is the
+\* number the eight bytes sym, ssym, type3, type2, type denote in that - big-endian - order: what r_info holds in a big-endian object)
 EntryView(cls, machine, e) ==
-  <<e.off, IF IsMips64(cls, machine) THEN <<>> ELSE Info(cls, e.sym, e.type), e.sym, e.type, e.add, e.ssym, e.type3, e.type2>>
+  <<e.off, IF IsMips64(cls, machine) THEN <<e.type[1], e.type2, e.type3, e.ssym>> \o e.sym ELSE Info(cls, e.sym, e.type),
+    e.sym, e.type, e.add, e.ssym, e.type3, e.type2>>
 TableView(o) ==
   LET bs == TableBytes(o) IN
   [j \in 1..NumEntries(bs, o.cls, o.rela) |-> EntryView(o.cls, o.machine, ReadEntry(bs, j - 1, o.cls, o.le, o.machine, o.rela))]
@@ -448,6 +462,17 @@ ErrPlans ==
   \cup UNION {UNION {{ErrObj(m, fl, OneClass(m), le, GoodRow(m, fl).t, s, pl, "symbol") :
                         le \in BOOLEAN, pl \in Places, s \in {NV, NV + 1, 16777215}} : fl \in AdmittedFl(m)} : m \in Machines}
 
+\* two tables, two symbol tables: the same two relocations (symbols 2 and 3) against a table with other values / a table too short
+TwoObj(m, fl, cls, le, syms, syms2) ==
+  LET ws == Wsz(cls)
+      t == GoodRow(m, fl).t
+  IN [cls |-> cls, le |-> le, machine |-> m, rela |-> fl = "RELA", data |-> Filler(24), syms |-> syms, syms2 |-> syms2, sub |-> "twotabs",
+      relocs |-> <<Entry(LEn(4, ws), LEn(2, 4), Type4(t), LEn(5, ws), 0, 0, 0), Entry(LEn(12, ws), LEn(3, 4), Type4(t), LEn(7, ws), 0, 0, 0)>>]
+OtherSyms(cls, k) == IF k = "short" THEN SubSeq(Syms(cls), 1, 3)
+                     ELSE <<NullSym(cls)>> \o [i \in 1..(NV - 1) |-> DTrunc(ValuePool[NV + 1 - i], Wsz(cls))]      \* the values in reverse order
+TwoPlans == UNION {{TwoObj(m, fl, OneClass(m), le, Syms(OneClass(m)), OtherSyms(OneClass(m), k)) :
+                      le \in BOOLEAN, k \in {"short", "other"}, fl \in AdmittedFl(m)} : m \in Machines}
+
 \* decode alphabets (one entry = one choice of every field; extremes and asymmetric patterns)
 Pool32 == << Entry(<<0, 0, 0, 0>>, <<0, 0, 0, 0>>, <<0, 0, 0, 0>>, <<0, 0, 0, 0>>, 0, 0, 0),
              Entry(<<1, 0, 0, 128>>, <<86, 52, 18, 0>>, <<120, 0, 0, 0>>, <<255, 255, 255, 255>>, 0, 0, 0),
@@ -495,6 +520,7 @@ Init ==
             \E p \in ApplyPlansOk :
                /\ obj = ApplyObj(p[1], p[2], p[3], p[4], p[5])
                /\ phase = "read" /\ st = [Idle EXCEPT !.buf = obj.data, !.k = 1]
+       [] Mode = "twotabs" -> \E p \in TwoPlans : obj = p /\ phase = "done" /\ st = Idle
        [] Mode = "errors" ->
             \E o \in ErrPlans : obj = o /\ phase = "read" /\ st = [Idle EXCEPT !.buf = o.data, !.k = 1]
        [] Mode = "relr" ->
@@ -599,10 +625,19 @@ EmitParts ==
                v |-> [mode |-> c.mode, sub |-> c.sub, cls |-> c.cls, le |-> c.le, machine |-> c.machine, rela |-> c.rela, nsyms |-> c.nsyms,
                       err |-> c.err, fields |-> c.fields, nchunks |-> Len(cs), ngroups |-> ng]])
 DynCase == [mode |-> Mode, cls |-> obj.cls, le |-> obj.le, machine |-> obj.machine, chunks |-> Chunks(DynImage(obj)), view |-> DynView(obj)]
-Emit == phase = "done" => IF Mode = "apply" THEN EmitParts
+\* (the second object of a twotabs pair is the first with the other symbol table)
+TwoB == [obj EXCEPT !.syms = obj.syms2]
+TwoCase == LET a == obj   b == TwoB   ra == Apply(a)   rb == Apply(b) IN
+           [mode |-> Mode, cls |-> a.cls, le |-> a.le, machine |-> a.machine, rela |-> a.rela, chunks |-> Chunks(TwoImage(a, b)),
+            a |-> [orig |-> a.data, bytes |-> ra.buf, err |-> ra.err], b |-> [orig |-> b.data, bytes |-> rb.buf, err |-> rb.err]]
+Emit == phase = "done" => IF Mode = "apply" THEN EmitParts ELSE IF Mode = "twotabs" THEN Put(TwoCase)
                           ELSE Put(IF IsTable THEN TableCase ELSE IF Mode = "dyn" THEN DynCase ELSE RelrCase)
 
 (* ------------------------------ properties ----------------------------- *)
+\* the symbol table a relocation table designates decides: the two results of a twotabs pair differ (other values) or the second is refused
+TwoTablesDiffer == Mode = "twotabs" => LET ra == Apply(obj)   rb == Apply(TwoB) IN
+                                         /\ ra.err = "" /\ (rb.err = "symbol" \/ (rb.err = "" /\ rb.buf # ra.buf))
+                                         /\ ChunksDisjoint(TwoImage(obj, TwoB))
 Done == phase = "done"
 \* reader o writer = identity; the entry count is size / entry size
 DecodeRoundTrip ==
